@@ -177,6 +177,8 @@ def build_text(pt):
 
 
 def check_point(pt):
+    from ..core import inputs as _inputs
+    _inputs.process_prelude()   # explored in a process that has already read many other files (see core/inputs.py)
     text, curves = build_text(pt)
     d, c, r = pt["d"], pt["c"], pt["r"]
     nontriv = (d != c) or pt["kind"] != "unwrapped" or r >= 19 or bool(pt["noise"])
